@@ -192,6 +192,19 @@ CASES: list[tuple[int, list[tuple[str, ...]], str, str | None, str, dict[str, An
     (148, [("s", "str")], "return {w0: 1 for i0, w0 in enumerate(s)}", "return {w0: 1 for w0 in s}", lit("Index is unused, use `for w0 in s` instead"), {}),
     (148, [("words", "list[str]")], "i0 = -1\nfor i0, w0 in enumerate(words):\n    print(w0)\nreturn i0", "i0 = -1\nfor w0 in words:\n    print(w0)\nreturn i0", lit("Index is unused, use `for w0 in words` instead"), {"fires": "maybe"}),
     (148, [("words", "list[str]")], "acc = []\nfor i0, w0 in enumerate(words):\n    acc.append((i0, w0))\nreturn acc", "acc = []\nfor w0 in words:\n    acc.append((i0, w0))\nreturn acc", r"is unused", {"fires": False}),
+    # the loop name is read only in a nested scope / only as the default of a same-named parameter: still a read
+    (135, [("d", "dict[str, int]")], 'acc = []\nfor k0, v0 in d.items():\n    acc.append((k0, (lambda v0=v0: v0)()))\nreturn acc', 'acc = []\nfor k0 in d:\n    acc.append((k0, (lambda v0=v0: v0)()))\nreturn acc', r"is unused", {"fires": False}),
+    (148, [("words", "list[str]")], 'acc = []\nfor i0, w0 in enumerate(words):\n    acc.append((i0, (lambda w0=w0: w0)()))\nreturn acc', 'acc = []\nfor i0 in range(len(words)):\n    acc.append((i0, (lambda w0=w0: w0)()))\nreturn acc', r"is unused", {"fires": False}),
+    (135, [("d", "dict[str, int]")], 'acc = []\nfor k0, v0 in d.items():\n    acc.append((k0, (lambda: v0)()))\nreturn acc', 'acc = []\nfor k0 in d:\n    acc.append((k0, (lambda: v0)()))\nreturn acc', r"is unused", {"fires": False}),
+    (148, [("words", "list[str]")], 'acc = []\nfor i0, w0 in enumerate(words):\n    acc.append((i0, (lambda: w0)()))\nreturn acc', 'acc = []\nfor i0 in range(len(words)):\n    acc.append((i0, (lambda: w0)()))\nreturn acc', r"is unused", {"fires": False}),
+    (135, [("d", "dict[str, int]")], 'acc = []\nfor k0, v0 in d.items():\n    acc.append((k0, [v0 for _ in range(1)][0]))\nreturn acc', 'acc = []\nfor k0 in d:\n    acc.append((k0, [v0 for _ in range(1)][0]))\nreturn acc', r"is unused", {"fires": False}),
+    (148, [("words", "list[str]")], 'acc = []\nfor i0, w0 in enumerate(words):\n    acc.append((i0, [w0 for _ in range(1)][0]))\nreturn acc', 'acc = []\nfor i0 in range(len(words)):\n    acc.append((i0, [w0 for _ in range(1)][0]))\nreturn acc', r"is unused", {"fires": False}),
+    (135, [("d", "dict[str, int]")], 'acc = []\nfor k0, v0 in d.items():\n    acc.append((k0, f"{v0}"))\nreturn acc', 'acc = []\nfor k0 in d:\n    acc.append((k0, f"{v0}"))\nreturn acc', r"is unused", {"fires": False}),
+    (148, [("words", "list[str]")], 'acc = []\nfor i0, w0 in enumerate(words):\n    acc.append((i0, f"{w0}"))\nreturn acc', 'acc = []\nfor i0 in range(len(words)):\n    acc.append((i0, f"{w0}"))\nreturn acc', r"is unused", {"fires": False}),
+    (135, [("d", "dict[str, int]")], 'acc = []\nfor k0, v0 in d.items():\n    acc.append((k0, (lambda q, v0=v0, *r, z=v0: (v0, z))(1)))\nreturn acc', 'acc = []\nfor k0 in d:\n    acc.append((k0, (lambda q, v0=v0, *r, z=v0: (v0, z))(1)))\nreturn acc', r"is unused", {"fires": False}),
+    (148, [("words", "list[str]")], 'acc = []\nfor i0, w0 in enumerate(words):\n    acc.append((i0, (lambda q, w0=w0, *r, z=w0: (w0, z))(1)))\nreturn acc', 'acc = []\nfor i0 in range(len(words)):\n    acc.append((i0, (lambda q, w0=w0, *r, z=w0: (w0, z))(1)))\nreturn acc', r"is unused", {"fires": False}),
+    (148, [("words", "list[str]")], 'acc = []\nfor i0, w0 in enumerate(words):\n    def show(w0=w0):\n        return w0\n    acc.append((i0, show()))\nreturn acc', 'acc = []\nfor i0 in range(len(words)):\n    def show(w0=w0):\n        return w0\n    acc.append((i0, show()))\nreturn acc', r"is unused", {"fires": False}),
+    (135, [("d", "dict[str, int]")], 'acc = []\nfor k0, v0 in d.items():\n    def show(k0=k0):\n        return k0\n    acc.append((show(), v0))\nreturn acc', 'acc = []\nfor v0 in d.values():\n    def show(k0=k0):\n        return k0\n    acc.append((show(), v0))\nreturn acc', r"is unused", {"fires": False}),
     (148, [("words", "list[str]")], "acc = []\nfor i0, w0 in enumerate(words, 1):\n    acc.append(i0)\nreturn acc", "acc = []\nfor i0 in range(len(words)):\n    acc.append(i0)\nreturn acc", r"is unused", {"fires": False}),
     # ---- FURB107: try/except/pass -> with suppress()
     (107, [("nums", "list[int]"), ("p", "int")], "try:\n    nums.remove(p)\nexcept ValueError:\n    pass\nreturn nums", "with suppress(ValueError):\n    nums.remove(p)\nreturn nums", lit("Replace `try: ... except ValueError: pass` with `with suppress(ValueError): ...`"), {}),
